@@ -13,6 +13,21 @@ from . import extract
 VERIF = extract.VERIF
 
 
+def scratch_base():
+    """one scratch area per process (concurrent checks must not share a scratch copy)"""
+    base = os.path.join(tempfile.gettempdir(), "acmed-verif-mut-%d" % os.getpid())
+    os.makedirs(base, exist_ok=True)
+    return base
+
+
+def cleanup(base, scratch):
+    import hashlib
+    shutil.rmtree(base, ignore_errors=True)
+    tag = hashlib.sha256(os.path.abspath(scratch).encode()).hexdigest()[:10]
+    for prof in ("dev", "release"):
+        shutil.rmtree(os.path.join(extract.CACHE, "facts", "%s-%s" % (prof, tag)), ignore_errors=True)
+
+
 def load_mutants(prop):
     p = os.path.join(VERIF, "mutants", "%s.json" % prop)
     if not os.path.exists(p):
@@ -40,8 +55,7 @@ def apply_edits(root, edits):
 def run_mutants(prop, only=None, keep=False):
     muts = load_mutants(prop)
     results = []
-    base = os.path.join(tempfile.gettempdir(), "acmed-verif-mut")
-    os.makedirs(base, exist_ok=True)
+    base = scratch_base()
     scratch = os.path.join(base, "repo")
     out = os.path.join(base, "out")
     for m in muts:
@@ -73,14 +87,13 @@ def run_mutants(prop, only=None, keep=False):
         results.append({"mutant": m["name"], "status": status, "rules": hit_rules, "what": m.get("what", ""),
                         "output": viol[:6] if status != "BUILD-FAILED" else r.stdout[-1500:].splitlines()[-12:]})
     if not keep:
-        shutil.rmtree(base, ignore_errors=True)
+        cleanup(base, scratch)
     return results
 
 
 def run_patch(prop, patch, keep=False):
     """apply a git patch (seeded change) to a scratch copy of the current /repo and run the property's quick check"""
-    base = os.path.join(tempfile.gettempdir(), "acmed-verif-mut")
-    os.makedirs(base, exist_ok=True)
+    base = scratch_base()
     scratch = os.path.join(base, "repo")
     out = os.path.join(base, "out")
     copy_repo(scratch)
@@ -96,7 +109,7 @@ def run_patch(prop, patch, keep=False):
     lines = [l for l in r.stdout.splitlines() if l.startswith("VIOLATION") or l.strip().startswith("rule ") or l.startswith("FATAL:")]
     status = "BUILD-FAILED" if any(l.startswith("FATAL:") for l in r.stdout.splitlines()) else ("CAUGHT" if r.returncode == 1 else "MISSED")
     if not keep:
-        shutil.rmtree(base, ignore_errors=True)
+        cleanup(base, scratch)
     return {"status": status, "output": lines[:8]}
 
 
